@@ -7,12 +7,22 @@
 //! Every text line travels as `G|C <annotation> ; <text>|`: the annotation is the abstract item (numbers as
 //! the format defines them), the text one concrete spelling of it (spacing, signs, leading zeros).  The
 //! judge re-derives the expected lists from the annotations alone.
+//!
+//! Thorough tier only, family `huge`: `HUGE metis-ring <n> <ring> <deg> <ncoords>` stands for a METIS file pair
+//! that both this harness and the Lean driver expand from the parameters (lean/Tbx/Drv/C07Huge.lean has the
+//! definition); observations are lengths, SHA-256 digests, counts and the first/last three entries.
+use std::io::Write as _;
 use std::panic::{AssertUnwindSafe, catch_unwind};
 use std::process::{Command, Stdio};
 use tbx_harness::*;
 use toolbox_rs::edge::InputEdge;
 use toolbox_rs::geometry::FPCoordinate;
 use toolbox_rs::io;
+
+// SHA-256 twin of lean/Tbx/Drv/Sha256.lean (shared with gen_c05 / gen_c06; only `sha256_hex` is used here)
+#[path = "../chipper_common.rs"]
+mod chipper_common;
+use chipper_common::sha256_hex;
 
 // ------------------------------------------------------------------------------------------------
 // abstract model the files are rendered from
@@ -486,6 +496,14 @@ fn generate(rng: &mut Rng, tier: Tier, cases: &mut Vec<Case>) {
         let adj = metis_adj(rng, 66000, 66000, 2, 300, 30, true);
         let co = rand_dec_coords(rng, 66000, false);
         cases.push(render_metis(rng, 66000, &adj, &co, false).into_case("metis-huge"));
+        // files whose decoded size crosses 64 MiB (2 796 203 InputEdge<usize> of 24 bytes; 8 388 608 FPCoordinate
+        // of 8 bytes): 3 000 000 edges over ids <= 4000; 8 400 000 coordinates
+        for params in ["4000 3000 500 3000", "8400000 10 2 8400000"] {
+            let mut c = Case::new("huge");
+            c.op("F metis eol=lf final=1");
+            c.op(format!("HUGE metis-ring {params}"));
+            cases.push(c);
+        }
     }
 }
 
@@ -508,7 +526,111 @@ fn text_of(op: &str) -> Option<&str> {
     t.strip_suffix('|')
 }
 
+/// count, digest of the canonical text (one entry per line), first and last three entries
+fn digest_line(name: &str, entries: Result<Vec<String>, ()>) -> String {
+    match entries {
+        Err(()) => format!("D {name} ERR"),
+        Ok(es) => {
+            let mut text = String::new();
+            for e in &es {
+                text.push_str(e);
+                text.push('\n');
+            }
+            let first = es.iter().take(3).cloned().collect::<Vec<_>>().join(",");
+            let last = es.iter().skip(es.len().saturating_sub(3)).cloned().collect::<Vec<_>>().join(",");
+            format!("D {name} n={} sha256={} first={first} last={last}", es.len(), sha256_hex(text.as_bytes()))
+        }
+    }
+}
+
+fn work_dir() -> String {
+    let run_dir = std::env::var("TBX_RUN_DIR").unwrap_or_else(|_| "/verif/build/run/C07".to_string());
+    let dir = format!("{run_dir}/files-{}", std::process::id());
+    std::fs::create_dir_all(&dir).unwrap();
+    dir
+}
+
+fn run_plier(fmt: &str, gpath: &str, cpath: &str) -> String {
+    let bin_dir = std::env::var("TBX_REPO_BIN_DIR").unwrap_or_else(|_| "/verif/build/repo-target/release".to_string());
+    let status = Command::new(format!("{bin_dir}/graph_plier"))
+        .args(["--input-format", fmt, "--graph", gpath, "--coordinates", cpath])
+        .env("RUST_LOG", "off")
+        .stdin(Stdio::null())
+        .stdout(Stdio::null())
+        .stderr(Stdio::null())
+        .status();
+    match status {
+        Ok(st) => match st.code() {
+            Some(code) => code.to_string(),
+            None => "signal".to_string(),
+        },
+        Err(e) => format!("spawn-failed:{}", e.kind()).replace(' ', "_"),
+    }
+}
+
+/// `HUGE metis-ring n ring deg ncoords` (definition: lean/Tbx/Drv/C07Huge.lean)
+fn execute_huge(args: &[u64], obs: &mut Vec<String>) {
+    let (n, ring, deg, ncoords) = (args[0], args[1], args[2], args[3]);
+    if ring == 0 || deg >= ring {
+        return;
+    }
+    let dir = work_dir();
+    let gpath = format!("{dir}/huge-graph.txt");
+    let cpath = format!("{dir}/huge-coordinates.txt");
+    let gout = format!("{gpath}.toolbox");
+    let cout = format!("{cpath}.toolbox");
+    let _ = std::fs::remove_file(&gout);
+    let _ = std::fs::remove_file(&cout);
+    {
+        let mut w = std::io::BufWriter::new(std::fs::File::create(&gpath).unwrap());
+        writeln!(w, "{n} {}", ring * deg).unwrap();
+        for i in 0..ring {
+            for k in 1..=deg {
+                write!(w, "{} {} ", (i + k) % ring + 1, (i + ring - k % ring) % ring + 1).unwrap();
+            }
+            writeln!(w, "{}", i + 1).unwrap();
+        }
+        w.flush().unwrap();
+        let mut w = std::io::BufWriter::new(std::fs::File::create(&cpath).unwrap());
+        for i in 0..ncoords {
+            let lon = (7919 * i % 36000001) as i64 - 18000000;
+            let lat = (104729 * i % 18000001) as i64 - 9000000;
+            writeln!(w, "{lon} {lat}").unwrap();
+        }
+        w.flush().unwrap();
+    }
+    let rc = run_plier("metis", &gpath, &cpath);
+    obs.push(format!("D rc={rc}"));
+    if rc != "0" {
+        return;
+    }
+    let gb = std::fs::read(&gout).unwrap_or_default();
+    let cb = std::fs::read(&cout).unwrap_or_default();
+    obs.push(format!("D gfile len={} sha256={}", gb.len(), sha256_hex(&gb)));
+    obs.push(format!("D cfile len={} sha256={}", cb.len(), sha256_hex(&cb)));
+    drop(gb);
+    drop(cb);
+    let te = catch_unwind(AssertUnwindSafe(|| io::read_graph_into_trivial_edges(&gout)));
+    obs.push(digest_line("tedges", te.map(|es| es.iter().map(|e| format!("{}/{}", e.source, e.target)).collect()).map_err(|_| ())));
+    let we = catch_unwind(AssertUnwindSafe(|| io::read_vec_from_file::<InputEdge<usize>>(&gout)));
+    obs.push(digest_line("wedges", we.map(|es| es.iter().map(|e| format!("{}/{}/{}", e.source, e.target, e.data)).collect()).map_err(|_| ())));
+    let co = catch_unwind(AssertUnwindSafe(|| io::read_vec_from_file::<FPCoordinate>(&cout)));
+    obs.push(digest_line("coords", co.map(|cs| cs.iter().map(|c| format!("{}/{}", c.lat, c.lon)).collect()).map_err(|_| ())));
+    for p in [&gpath, &cpath, &gout, &cout] {
+        let _ = std::fs::remove_file(p);
+    }
+}
+
 fn execute(case: &Case, obs: &mut Vec<String>) {
+    for op in &case.ops {
+        if let Some(rest) = op.strip_prefix("HUGE metis-ring ") {
+            let args: Vec<u64> = rest.split_whitespace().filter_map(|t| t.parse().ok()).collect();
+            if args.len() == 4 {
+                execute_huge(&args, obs);
+            }
+            return;
+        }
+    }
     let mut fmt = "";
     let mut crlf = false;
     let mut final_nl = true;
@@ -540,10 +662,7 @@ fn execute(case: &Case, obs: &mut Vec<String>) {
     if !["dimacs", "metis", "ddsg"].contains(&fmt) {
         return;
     }
-    let run_dir = std::env::var("TBX_RUN_DIR").unwrap_or_else(|_| "/verif/build/run/C07".to_string());
-    let bin_dir = std::env::var("TBX_REPO_BIN_DIR").unwrap_or_else(|_| "/verif/build/repo-target/release".to_string());
-    let dir = format!("{run_dir}/files-{}", std::process::id());
-    std::fs::create_dir_all(&dir).unwrap();
+    let dir = work_dir();
     let gpath = format!("{dir}/graph.txt");
     let cpath = format!("{dir}/coordinates.txt");
     let gout = format!("{gpath}.toolbox");
@@ -564,20 +683,7 @@ fn execute(case: &Case, obs: &mut Vec<String>) {
     write(&gpath, &g);
     write(&cpath, &c);
     // the real graph_plier
-    let status = Command::new(format!("{bin_dir}/graph_plier"))
-        .args(["--input-format", fmt, "--graph", &gpath, "--coordinates", &cpath])
-        .env("RUST_LOG", "off")
-        .stdin(Stdio::null())
-        .stdout(Stdio::null())
-        .stderr(Stdio::null())
-        .status();
-    let rc = match status {
-        Ok(st) => match st.code() {
-            Some(code) => code.to_string(),
-            None => "signal".to_string(),
-        },
-        Err(e) => format!("spawn-failed:{}", e.kind()).replace(' ', "_"),
-    };
+    let rc = run_plier(fmt, &gpath, &cpath);
     obs.push(format!("D rc={rc}"));
     if rc != "0" {
         return;
